@@ -141,6 +141,8 @@ def handle (toks : List String) : Option String :=
         | k :: v :: rest => (pairs rest).map (fun r => (k, v) :: r)
       match pairs kvs with
       | some d =>
+        -- the probe of `len_padding` hands the padding to `int()`: outside the scope of its model (a Unicode decimal zero …)
+        if !padInScope lp then some "unsupported" else
         match generateTlv tl ll tp lp d with
         | .ok s => some ("ok " ++ encStr s)
         | .error e => some (showErr e)
